@@ -1,4 +1,4 @@
-from runner import SmtUnit, SmtEntry, CbmcUnit, Entry
+from runner import SmtUnit, SmtEntry, CbmcUnit, Entry, PathUnit, PathEntry
 
 LEVEL = "other"
 EXPLANATION = ("Index maps: SMT verdicts (z3, integers with explicit mod 2^64, Euclidean witnesses for div/mod, compositional lemma cuts) over ALL extents "
@@ -25,5 +25,7 @@ def units(tier):
         C("vp_main_actual", "ActualArray3D set/get round trip, flattened cell, clamping of outside coordinates"),
         C("vp_main_valuerange", "getValueRange bounds every value of a non-empty region and both bounds are attained", uw=4, unwindset={"ir_vp_main_valuerange.0": 14}),
         C("vp_main_adaptors", "IndexShifted, SubBox, Accessor<int,long>, Repeater sizes: the underlying cell their definition names"),
-    ] + ([] if q else [C("vp_main_multislice", "MultiSliceArray3D reads slice z", uw=6)]), heap_max=64, assumptions=["volume 2x2x3 (adaptors), regions within 3x3x3 (for_each)", "loadRAW/mmapRAW outside the claim", "Array3DRepeater::get semantics (mirrored repetition) not asserted"])
-    return [idx, ad]
+    ], heap_max=64, assumptions=["volume 2x2x3 (adaptors), regions within 3x3x3 (for_each)", "loadRAW/mmapRAW outside the claim", "Array3DRepeater::get semantics (mirrored repetition) not asserted"])
+    ms = PathUnit("array3d_path", "harness/C17_array3d.cpp", [PathEntry("vp_main_multislice", desc="MultiSliceArray3D reads slice z (vp/llpath.py; cbmc gave no verdict within 3000 s)", wall=600)],
+                  assumptions=["2x2x3 volume", "std::vector / shared_ptr are the real libstdc++ header code"])
+    return [idx, ad, ms]
